@@ -120,3 +120,142 @@ theorem getEntry_setEntry (kv : List (Bytes × Entry)) (k k' : Bytes) (e : Entry
         simp
 
 end CGV.Mvcc
+
+namespace CGV.Mvcc
+open CGV
+
+theorem isEmpty_eq (e : Entry) (h : e.isEmpty = true) : e = {} := by
+  obtain ⟨l, w⟩ := e
+  simp only [Entry.isEmpty, Bool.and_eq_true, Option.isNone_iff_eq_none, List.isEmpty_iff] at h
+  simp [h.1, h.2]
+
+theorem getEntry_setEntry_same (kv : List (Bytes × Entry)) (k : Bytes) (e : Entry) (hs : KvSorted kv) :
+    getEntry (setEntry kv k e) k = e := by
+  rw [getEntry_setEntry kv k k e hs]
+  by_cases he : e.isEmpty = true
+  · simp [he, (isEmpty_eq e he).symm]
+  · simp [he]
+
+theorem getEntry_setEntry_other (kv : List (Bytes × Entry)) (k k' : Bytes) (e : Entry) (hs : KvSorted kv) (hne : k' ≠ k) :
+    getEntry (setEntry kv k e) k' = getEntry kv k' := by
+  rw [getEntry_setEntry kv k k' e hs]; simp [hne]
+
+/-- all keys of the map are greater than `k` -/
+def AllGt (k : Bytes) (kv : List (Bytes × Entry)) : Prop := ∀ p ∈ kv, Bytes.cmp k p.1 = .lt
+
+theorem KvSorted.cons_iff {k : Bytes} {e : Entry} {kv : List (Bytes × Entry)} :
+    KvSorted ((k, e) :: kv) ↔ AllGt k kv ∧ KvSorted kv := by
+  constructor
+  · intro h; exact ⟨h.head_lt, h.tail⟩
+  · intro ⟨hg, hs⟩
+    cases kv with
+    | nil => trivial
+    | cons q rest => obtain ⟨k2, e2⟩ := q; exact ⟨hg (k2, e2) (List.mem_cons_self ..), hs⟩
+
+theorem mem_setEntry {kv : List (Bytes × Entry)} {k : Bytes} {e : Entry} {p : Bytes × Entry}
+    (h : p ∈ setEntry kv k e) : p ∈ kv ∨ p.1 = k := by
+  induction kv with
+  | nil =>
+    simp only [setEntry] at h
+    split at h
+    · cases h
+    · simp at h; right; rw [h]
+  | cons q rest ih =>
+    obtain ⟨k2, e2⟩ := q
+    simp only [setEntry] at h
+    split at h
+    · split at h
+      · left; exact h
+      · cases h with
+        | head => right; rfl
+        | tail _ h' => left; exact h'
+    · split at h
+      · left; exact List.mem_cons_of_mem _ h
+      · cases h with
+        | head => right; rfl
+        | tail _ h' => left; exact List.mem_cons_of_mem _ h'
+    · cases h with
+      | head => left; exact List.mem_cons_self ..
+      | tail _ h' =>
+        cases ih h' with
+        | inl h'' => left; exact List.mem_cons_of_mem _ h''
+        | inr h'' => right; exact h''
+
+theorem cmp_gt_swap {a b : Bytes} (h : Bytes.cmp a b = .gt) : Bytes.cmp b a = .lt := by
+  rw [← Bytes.cmp_swap, h]; rfl
+
+theorem setEntry_sorted (kv : List (Bytes × Entry)) (k : Bytes) (e : Entry) (hs : KvSorted kv) :
+    KvSorted (setEntry kv k e) := by
+  induction kv with
+  | nil => simp only [setEntry]; split <;> trivial
+  | cons q rest ih =>
+    obtain ⟨k2, e2⟩ := q
+    simp only [setEntry]
+    cases hc : Bytes.cmp k k2 with
+    | lt =>
+      simp only []
+      split
+      · exact hs
+      · exact ⟨hc, hs⟩
+    | eq =>
+      have := beq_of_cmp_eq hc
+      subst this
+      simp only []
+      split
+      · exact hs.tail
+      · exact KvSorted.cons_iff.mpr ⟨hs.head_lt, hs.tail⟩
+    | gt =>
+      simp only []
+      apply KvSorted.cons_iff.mpr
+      refine ⟨?_, ih hs.tail⟩
+      intro p hp
+      cases mem_setEntry hp with
+      | inl h => exact hs.head_lt p h
+      | inr h => rw [h]; exact cmp_gt_swap hc
+
+/-- the effect of one batch entry on the entry of its key -/
+def Act.key : Act → Bytes
+  | .putLock k _ => k | .delLock k => k | .putWrite k _ => k | .delWrite k _ => k
+
+def entryAct (e : Entry) : Act → Entry
+  | .putLock _ l => { e with lock := some l }
+  | .delLock _ => { e with lock := none }
+  | .putWrite _ w => { e with writes := putWrite e.writes w }
+  | .delWrite _ c => { e with writes := delWrite e.writes c }
+
+theorem applyAct_sorted (kv : List (Bytes × Entry)) (a : Act) (hs : KvSorted kv) : KvSorted (applyAct kv a) := by
+  cases a <;> exact setEntry_sorted _ _ _ hs
+
+theorem getEntry_applyAct (kv : List (Bytes × Entry)) (a : Act) (k : Bytes) (hs : KvSorted kv) :
+    getEntry (applyAct kv a) k = if k = a.key then entryAct (getEntry kv k) a else getEntry kv k := by
+  have main : ∀ (k0 : Bytes) (f : Entry → Entry),
+      getEntry (setEntry kv k0 (f (getEntry kv k0))) k = if k = k0 then f (getEntry kv k) else getEntry kv k := by
+    intro k0 f
+    by_cases hk : k = k0
+    · subst hk; simp [getEntry_setEntry_same _ _ _ hs]
+    · simp [hk, getEntry_setEntry_other _ _ _ _ hs hk]
+  cases a with
+  | putLock k0 l => exact main k0 (fun e => { e with lock := some l })
+  | delLock k0 => exact main k0 (fun e => { e with lock := none })
+  | putWrite k0 w => exact main k0 (fun e => { e with writes := putWrite e.writes w })
+  | delWrite k0 c => exact main k0 (fun e => { e with writes := delWrite e.writes c })
+
+theorem applyBatch_sorted (kv : List (Bytes × Entry)) (b : List Act) (hs : KvSorted kv) : KvSorted (applyBatch kv b) := by
+  induction b generalizing kv with
+  | nil => exact hs
+  | cons a rest ih => exact ih _ (applyAct_sorted kv a hs)
+
+/-- a batch acts on every key independently: only the entries of that key matter, in order -/
+theorem getEntry_applyBatch (kv : List (Bytes × Entry)) (b : List Act) (k : Bytes) (hs : KvSorted kv) :
+    getEntry (applyBatch kv b) k = (b.filter fun a => a.key == k).foldl entryAct (getEntry kv k) := by
+  induction b generalizing kv with
+  | nil => rfl
+  | cons a rest ih =>
+    simp only [applyBatch, List.foldl_cons] at ih ⊢
+    rw [ih _ (applyAct_sorted kv a hs), getEntry_applyAct kv a k hs]
+    by_cases hk : k = a.key
+    · subst hk; simp [List.filter_cons]
+    · have : (a.key == k) = false := beq_false_of_ne (Ne.symm hk)
+      simp [List.filter_cons, hk, this]
+
+end CGV.Mvcc
